@@ -479,7 +479,29 @@ fn call0(vm: &mut Vm<Host>, f: Value) -> R { reenter(vm, "call0", f, &[]) }
 fn call1(vm: &mut Vm<Host>, f: Value, a: Value) -> R { reenter(vm, "call1", f, &[a]) }
 fn call2(vm: &mut Vm<Host>, f: Value, a: Value, b: Value) -> R { reenter(vm, "call2", f, &[a, b]) }
 
+/// like call0 / call1, but the host function handles a failure of the callee: it logs the stack balance it finds afterwards
+/// and carries on with -1 as the callee's result
+fn try_reenter(vm: &mut Vm<Host>, name: &str, f: Value, args: &[Value]) -> R {
+    let r0 = vm.runtime_data.verif_residue();
+    let (sh, ch) = (r0.value_stack_len as i64, r0.call_stack_len as i64);
+    for a in args {
+        vm.stack_push(*a)?;
+    }
+    let r = match vm.run_function(f) {
+        Ok(v) => v,
+        Err(_) => Value::Integer(-1),
+    };
+    let r1 = vm.runtime_data.verif_residue();
+    let (sh2, ch2) = (r1.value_stack_len as i64, r1.call_stack_len as i64);
+    lg(vm, name, vec![deep(r, 0), jint(sh2 - sh), jint(ch2 - ch)]);
+    Ok(r)
+}
+fn try0(vm: &mut Vm<Host>, f: Value) -> R { try_reenter(vm, "try0", f, &[]) }
+fn try1(vm: &mut Vm<Host>, f: Value, a: Value) -> R { try_reenter(vm, "try1", f, &[a]) }
+
 pub fn register_typed(vm: &mut Vm<Host>) {
+    vm.register_native_function("try0", into_f1(try0)).unwrap();
+    vm.register_native_function("try1", into_f2(try1)).unwrap();
     vm.register_native_function("t_i", into_f1(t_i)).unwrap();
     vm.register_native_function("t_f", into_f1(t_f)).unwrap();
     vm.register_native_function("t_b", into_f1(t_b)).unwrap();
